@@ -24,7 +24,8 @@ func TestVerifRdyBytesCorr(t *testing.T) {
 	opts.Logger = nil
 	opts.LogLevel = LOG_FATAL
 	opts.DataPath = t.TempDir()
-	opts.TCPAddress, opts.HTTPAddress, opts.HTTPSAddress = "127.0.0.1:0", "127.0.0.1:0", ""
+	opts.TCPAddress, opts.HTTPAddress = vfLoop2()
+	opts.HTTPSAddress = ""
 	nsqd, err := New(opts)
 	if err != nil {
 		t.Fatal(err)
